@@ -159,6 +159,42 @@ theorem exit_stops_every_handler (lg : Logger) (hl : ∀ h ∈ lg.handlers, Live
   obtain ⟨_, _, _, _, e, _⟩ := hl h hh
   simp [Handler.final, e]
 
+/-- the exit clause in a process FORKED after `add()` (daemonisation: the launcher leaves with
+`os._exit`, the forked process later exits normally): a handler without `enqueue` that this process
+did not create is stopped all the same – its sink is stopped (file closed, end-of-life compression /
+retention, stream `stop()`), exactly as in the creating process -/
+theorem forked_process_exit_stops_inherited_handlers (lg : Logger)
+    (hf : ∀ h ∈ lg.handlers, h.enqueue = false ∧ h.owner = false ∧ h.stopped = false ∧ h.sentinel = false ∧
+      h.joined = false ∧ h.hung = false ∧ h.queue = []) :
+    (interpreterExit lg).handlers = [] ∧
+    (interpreterExit lg).removed = lg.removed ++ lg.handlers.map (fun h => { h with stopped := true, sink := h.sink.stop }) := by
+  have hl : ∀ h ∈ lg.handlers, Live h := by
+    intro h hh
+    obtain ⟨a, _, c, d, e, f, g⟩ := hf h hh
+    exact ⟨c, by simp [a], d, e, f, fun _ => g⟩
+  rw [exit_eq lg hl]
+  refine ⟨rfl, ?_⟩
+  show lg.removed ++ List.map Handler.final lg.handlers = _
+  congr 1
+  apply List.map_congr_left
+  intro h hh
+  obtain ⟨a, _, _, d, e, _, g⟩ := hf h hh
+  obtain ⟨enq, own, q, sk, st, se, jo, hu⟩ := h
+  simp only at a d e g; subst a d e g
+  simp [Handler.final]
+
+/-- REFUTING WITNESS for the broken shape "owner test hoisted out of `if self._enqueue:`" (only the
+creating process finalises a handler): with that statement list a plain handler inherited through
+`fork()` keeps its sink untouched – never closed, never compressed -/
+theorem owner_guard_must_stay_under_enqueue (h : Handler) (he : h.enqueue = false) (ho : h.owner = false) :
+    let hoisted : List (Bool × StopOp) :=
+      [(false, .setStopped), (false, .returnIfNotOwner), (true, .putSentinel), (true, .joinWorker),
+       (true, .closeQueue), (false, .sinkStop)]
+    (hoisted.foldl runStopOp (h, false)).1.sink = h.sink := by
+  obtain ⟨enq, own, q, sk, st, se, jo, hu⟩ := h
+  simp only at he ho; subst he ho
+  simp [runStopOp]
+
 /-- file handler at exit: every queued text is written, then the file is flushed and closed (so even
 texts WITHOUT a line end reach the OS), and compression / retention run once more iff no rotation
 is configured (`drained` is the sink after the worker has written the queue) -/
